@@ -73,7 +73,13 @@ def jobs_for(prop, both, repo):
         for ci, c in enumerate(mod.CONTRACTS):
             for meth, variants in c.methods.items():
                 for vi, v in enumerate(variants):
-                    if prop in v.props:
+                    props = set(v.props)
+                    # C01 quantifies over all pipelines: the structural induction uses the interface
+                    # contract I(d) of every stage as a whole (iteration of slices, catch, prefetch,
+                    # batch indexing ... goes through d[i], len and keys of their inputs)
+                    if prop == 'C01' and c.cls and meth in ('__getitem__', '__len__', 'keys') and props & {'C02', 'C03'}:
+                        props.add('C01')
+                    if prop in props:
                         jobs.append((m, ci, meth, vi, both, repo))
     return jobs
 
